@@ -70,15 +70,21 @@ def updateOne (c : RandomAgents) (n : Nat) (cur : Option Nat) (e : MEnv) (g : Xo
     else placeRandom c n e g.genF32.2
   else some (cur, e, g.genF32.2)
 
-def updateFrom (c : RandomAgents) : Nat → List (Option Nat) → MEnv → Xoro → Option (List (Option Nat) × MEnv × Xoro)
+/-- The trader loop, with the per-trader closure as a parameter (so that its unfolding lemmas do not
+depend on the closure's body). -/
+def updateFromWith (f : Nat → Option Nat → MEnv → Xoro → Option (Option Nat × MEnv × Xoro)) :
+    Nat → List (Option Nat) → MEnv → Xoro → Option (List (Option Nat) × MEnv × Xoro)
   | _, [], e, g => some ([], e, g)
   | n, cur :: rest, e, g =>
-    match updateOne c n cur e g with
+    match f n cur e g with
     | none => none
     | some (o, e, g) =>
-      match updateFrom c (n + 1) rest e g with
+      match updateFromWith f (n + 1) rest e g with
       | none => none
       | some (os, e, g) => some (o :: os, e, g)
+
+def updateFrom (c : RandomAgents) : Nat → List (Option Nat) → MEnv → Xoro → Option (List (Option Nat) × MEnv × Xoro) :=
+  updateFromWith (updateOne c)
 
 /-- `Agent::update`. -/
 def update (c : RandomAgents) (e : MEnv) (g : Xoro) : Option (RandomAgents × MEnv × Xoro) :=
